@@ -36,6 +36,11 @@ def run(ctx):
     rule_determine(ctx, mod)
     rule_from_shorthand(ctx, mod)
     rule_invert(ctx, mod)
+    # from_shorthand is evaluated with the respelling helper summarised by its post-condition; the helper's own
+    # obligation (C02's rule, same code, same anchor file) is discharged here too so that a defect in it is a C03 report
+    from . import c02
+    c02.rule_helper(ctx, mod, R="R-C03-H")
+    ctx.floor("R-C03-H", 5)
     ctx.floor("R-C03-D", 49 * 2)
     ctx.floor("R-C03-F", 7 * 35 * 2)
     ctx.floor("R-C03-7", 1)
